@@ -436,3 +436,61 @@ func HarnessC19Abandon() {
 	verif.Assert(len(want) >= 3, "C19/abandon/three-results")
 	verif.Assert(sameSpecs(got, want), "C19/abandon/read-same-answer")
 }
+
+// C19 (b): reads running concurrently with a write: one goroutine adds (or
+// removes) a triple through the wrapper while another reads through the same
+// handle; the engine explores the interleavings.  Once both have returned, the
+// same read issued again must return what the plain store returns now.
+func HarnessC19Interleave() {
+	mk := func(s, p, o byte) *spec {
+		sp := &spec{sb: s, pb: p, ob: o}
+		sp.t = sp.build()
+		return sp
+	}
+	all := []*spec{mk('a', 'p', 'x'), mk('a', 'p', 'y')}
+	ms := memoization.New(memory.NewStore())
+	ps := memory.NewStore()
+	mg, e1 := ms.NewGraph(ctx, "?g")
+	pg, e2 := ps.NewGraph(ctx, "?g")
+	verif.Assume(e1 == nil && e2 == nil)
+	mg.AddTriples(ctx, triples(all[:1]))
+	pg.AddTriples(ctx, triples(all[:1]))
+	m := []int{0, 5, 10, 11}[verif.Choice("method", 4)] // Objects, TriplesForSubject, Triples, Exist
+	remove := verif.Choice("remove", 2) == 1
+	q := all[0]
+	if m == 11 && !remove {
+		q = all[1]
+	}
+	lo := &storage.LookupOptions{}
+	done := make(chan bool, 2)
+	go func() {
+		if remove {
+			mg.RemoveTriples(ctx, triples(all[:1]))
+		} else {
+			mg.AddTriples(ctx, triples(all[1:]))
+		}
+		done <- true
+	}()
+	go func() {
+		c19ReadAll(mg, m, q, lo, all)
+		done <- true
+	}()
+	<-done
+	<-done
+	if remove {
+		pg.RemoveTriples(ctx, triples(all[:1]))
+	} else {
+		pg.AddTriples(ctx, triples(all[1:]))
+	}
+	verif.Reach("quiescent")
+	got, gotE, err1, f1 := c19ReadAll(mg, m, q, lo, all)
+	want, wantE, err2, f2 := c19ReadAll(pg, m, q, lo, all)
+	verif.Class("read-overlapping-a-write")
+	verif.Assert(verif.And(!f1, !f2), "C19/interleave/result-derived-from-stored-triple")
+	verif.Assert((err1 == nil) == (err2 == nil), "C19/interleave/same-error")
+	if m == 11 {
+		verif.Assert(gotE == wantE, "C19/interleave/exist-same-answer")
+	} else {
+		verif.Assert(sameSpecs(got, want), "C19/interleave/read-same-answer")
+	}
+}
